@@ -1,4 +1,6 @@
 """C03 - serialized XML is well-formed and says exactly what the metadata says (DESIGN §C03)."""
+import dataclasses as _dc
+import typing as _t
 import warnings
 import xml.sax
 import xml.sax.handler
@@ -87,6 +89,8 @@ def has_illegal(data):
 
 
 def execute(case, col):
+    if case.get("family") == "anytype":
+        return execute_any(case, col)
     try:
         model = M.Model(case["spec"])
     except Exception as e:
@@ -160,13 +164,80 @@ def _execute(case, col, model):
     return []
 
 
+# ---------------------------------------------------------------------------
+# object-typed element fields (docs/models/types.md: "any primitive ... xsi:type"): a fixed model, generated values
+
+
+@_dc.dataclass
+class AnyHolder:
+    class Meta:
+        name = "holder"
+        namespace = "urn:h"
+    one: _t.Optional[object] = _dc.field(default=None, metadata={"type": "Element"})
+    many: _t.List[object] = _dc.field(default_factory=list, metadata={"type": "Element", "name": "v"})
+ANY_VALUES = [("int", 0), ("int", 7), ("int", -12), ("bool", False), ("bool", True), ("float", 0.0), ("float", 1.5), ("decimal", "0"), ("decimal", "1.50"),
+              ("str", "0"), ("str", "abc"), ("str", "false"), ("date", "2001-10-26"), ("time", "21:32:52"), ("duration", "P1Y"), ("qname", "{urn:q}n")]
+XSD_OF = {"int": {"int", "integer", "long", "short", "byte", "unsignedByte", "unsignedShort", "unsignedInt", "nonNegativeInteger", "positiveInteger",
+                  "negativeInteger", "nonPositiveInteger", "unsignedLong"}, "bool": {"boolean"}, "float": {"double", "float"}, "decimal": {"decimal"},
+          "date": {"date"}, "time": {"time"}, "duration": {"duration"}, "qname": {"QName"}, "str": {"string", None}}
+
+
+def _anyvalue(kind, v):
+    from decimal import Decimal
+    from xml.etree.ElementTree import QName
+    from xsdata.models.datatype import XmlDate, XmlDuration, XmlTime
+    return {"decimal": Decimal, "date": XmlDate.from_string, "time": XmlTime.from_string, "duration": XmlDuration, "qname": QName}.get(kind, lambda x: x)(v)
+
+
+@st.composite
+def any_cases(draw):
+    vals = draw(st.lists(st.sampled_from(ANY_VALUES), min_size=1, max_size=5))
+    return {"family": "anytype", "one": draw(st.one_of(st.none(), st.sampled_from(ANY_VALUES))), "many": vals,
+            "writer": draw(st.sampled_from(sorted(c01.WRITERS))), "ns_map": draw(st.sampled_from([None, [["xs", "http://www.w3.org/2001/XMLSchema"]], [["h", "urn:h"]]]))}
+
+
+def execute_any(case, col):
+    XS = "http://www.w3.org/2001/XMLSchema"
+    XSI = "{http://www.w3.org/2001/XMLSchema-instance}type"
+    obj = AnyHolder(one=_anyvalue(*case["one"]) if case["one"] else None, many=[_anyvalue(k, v) for k, v in case["many"]])
+    ns_map = {k: v for k, v in case["ns_map"]} if case["ns_map"] else None
+    kinds = {k for k, _ in case["many"]} | ({case["one"][0]} if case["one"] else set())
+    col.case(("anytype", case["one"], case["many"], case["writer"], case["ns_map"]), len(kinds) >= 2,
+             labels=["family:object-typed-elements", f"writer:{case['writer']}"] + [f"value:{k}" for k in sorted(kinds)],
+             sample={"one": case["one"], "many": case["many"], "writer": case["writer"]})
+    try:
+        xml_text = XmlSerializer(context=XmlContext(), config=SerializerConfig(xml_declaration=False), writer=c01.WRITERS[case["writer"]]).render(obj, ns_map=ns_map)
+        root = etree.fromstring(xml_text.encode(), I.STRICT)
+    except Exception as e:
+        return [Failure(exc_sig("anytype/serialize-or-parse", e), f"{type(e).__name__}: {e}\nobject: {obj!r}", case)]
+    expected = ([case["one"]] if case["one"] else []) + list(case["many"])
+    els = list(root)
+    if [etree.QName(e).localname for e in els] != (["one"] if case["one"] else []) + ["v"] * len(case["many"]):
+        return [Failure("anytype/children", f"children {[e.tag for e in els]}\nxml: {xml_text}\nobject: {obj!r}", case)]
+    for (kind, v), el in zip(expected, els):
+        t = el.get(XSI)
+        local = None
+        if t is not None:
+            prefix, _, local = t.rpartition(":")
+            if el.nsmap.get(prefix or None) != XS:
+                return [Failure("anytype/xsi-type-namespace", f"<{el.tag}> xsi:type={t!r} does not resolve to the XML Schema namespace\nxml: {xml_text}", case)]
+        if local not in XSD_OF[kind]:
+            return [Failure(f"anytype/xsi-type-of-{kind}", f"a {kind} value {v!r} in an object-typed element is written with xsi:type={t!r}; the metadata prescribes "
+                            f"one of {sorted(x for x in XSD_OF[kind] if x)}\nxml: {xml_text}\nobject: {obj!r}", case)]
+    return []
+
+
 def plan(tier, seed):
     n, nsh = {"quick": (12000, 16), "thorough": (480000, 64)}[tier]
-    return [{"n": n // nsh, "seed": seed * 1000 + i} for i in range(nsh)]
+    m = {"quick": 1500, "thorough": 30000}[tier]
+    return [{"n": n // nsh, "seed": seed * 1000 + i} for i in range(nsh)] + [{"anytype": True, "n": m, "seed": seed * 1000 + 900}]
 
 
 def run_shard(shard, col):
-    hyp_campaign(cases(), execute, shard["n"], shard["seed"], col)
+    if shard.get("anytype"):
+        hyp_campaign(any_cases(), execute, shard["n"], shard["seed"], col)
+    else:
+        hyp_campaign(cases(), execute, shard["n"], shard["seed"], col)
 
 
 def replay_case(case):
